@@ -21,6 +21,7 @@ import (
 	"github.com/lightninglabs/pool/auctioneerrpc"
 	"github.com/lightninglabs/pool/internal/test"
 	"github.com/lightninglabs/pool/order"
+	"github.com/lightninglabs/pool/poolrpc"
 	"github.com/lightninglabs/pool/sidecar"
 	"github.com/lightninglabs/pool/terms"
 	"github.com/lightningnetwork/lnd/keychain"
@@ -257,6 +258,22 @@ func c12RandOrder(rng *rand.Rand, keys *c14Keys, valid bool) c12Order {
 		c.MinUnits = units
 		c.SelfChanBal = rng.Int63n(c.Amt + 1)
 	}
+	if valid && rng.Intn(4) == 0 {
+		// outbound liquidity market: the order amount is one unit, an ask's
+		// minimum match (the channel the bidder opens) is legitimately larger
+		// (ParseRPCOrder skips the min-units <= units check for this market)
+		c.AuctionType = uint32(order.BTCOutboundLiquidity)
+		c.Amt, c.Units, c.Unfulfilled = 100000, 1, 1
+		c.SelfChanBal = 0
+		if c.Bid {
+			c.MinUnits = 1
+			if c.Version >= 3 {
+				c.SelfChanBal = int64(1+rng.Intn(50)) * 100000
+			}
+		} else {
+			c.MinUnits = uint64(1 + rng.Intn(50))
+		}
+	}
 	if valid {
 		return c
 	}
@@ -409,7 +426,7 @@ func newC12Env(seed int64) *c12Env {
 	if err != nil {
 		panic(err)
 	}
-	e.client = auctioneer.VerifDigestNewClient(&auctioneer.Config{
+	e.client = auctioneer.VerifC12NewClient(&auctioneer.Config{
 		GenUserAgent: func(context.Context) string { return "verif" },
 	}, auctioneerrpc.NewChannelAuctioneerClient(conn))
 	e.stop = func() { conn.Close(); gs.Stop() }
@@ -556,6 +573,10 @@ func (e *c12Env) submitCase(r *Run, c c12Order, rng *rand.Rand, replay interface
 		side = "bid"
 	}
 	r.Count(fmt.Sprintf("submit/%s/v%d", side, c.Version))
+	r.Count(fmt.Sprintf("submit/market%d/%s", c.AuctionType, side))
+	if c.MinUnits > c.Units {
+		r.Count("submit/minunits>units")
+	}
 	if c.Bid && c.Sidecar {
 		r.Count("submit/sidecar")
 	}
@@ -631,10 +652,175 @@ func (e *c12Env) submitRaw(r *Run, c c12Order, rng *rand.Rand) {
 			rd = c12Digest(rb)
 		}
 		out = "ok " + c12WireString(e.srv.got) + " " + rd
+		// oracle (no signature involved here): whatever SubmitOrder transmits
+		// for an order whose min match fits the wire field (MinUnitsMatch *
+		// 100000 < 2^64) must let the receiver re-derive the digest the
+		// trader would sign for that order
+		want := c12Digest(o)
+		if c.MinUnits < math.MaxUint64/100000 && strings.HasPrefix(want, "ok:") {
+			r.Count("submitraw/oracle-evaluated")
+			if rd != want {
+				r.Count("oracle/violation")
+				r.Violate("digest re-derived from the transmitted fields ("+rd+") differs from the order's digest "+
+					want+"; received "+c12WireString(e.srv.got),
+					fmt.Sprintf("C12/sent-not-signed/raw/v%d", c.Version),
+					map[string]interface{}{"op": "submitraw", "order": c, "seed": r.Seed})
+			}
+		}
 	}
 	r.Emit(fmt.Sprintf("C12 submit %s %s %s %s", c.tok(), c14Hex(params.RawSig), c14Hex(params.MultiSigKey[:]),
 		c14Hex(params.NodePubkey[:])), out)
 	r.Count("submitraw/" + res)
+}
+
+// c12FromKit is the JSON/token form of a kit produced by the real code.
+func c12FromKit(k *order.Kit) c12Order {
+	n := k.Nonce()
+	return c12Order{Nonce: hex.EncodeToString(n[:]), Version: uint32(k.Version), State: uint8(k.State),
+		Rate: k.FixedRate, Amt: int64(k.Amt), Units: uint64(k.Units), Unfulfilled: uint64(k.UnitsUnfulfilled),
+		Fee: int64(k.MaxBatchFeeRate), AcctKey: hex.EncodeToString(k.AcctKey[:]), Lease: k.LeaseDuration,
+		MinUnits: uint64(k.MinUnitsMatch), ChannelType: uint8(k.ChannelType), AuctionType: uint32(k.AuctionType),
+		IsPublic: k.IsPublic}
+}
+
+// parseCase: the real order.ParseRPCOrder on a random poolrpc.Order.
+func (e *c12Env) parseCase(r *Run, rng *rand.Rand) {
+	d := &poolrpc.Order{RateFixed: rng.Uint32(), IsPublic: rng.Intn(2) == 0}
+	d.TraderKey = e.keys.pub[1+rng.Intn(c14NKeys)].SerializeCompressed()
+	if rng.Intn(10) == 0 {
+		d.TraderKey = d.TraderKey[:rng.Intn(34)]
+	}
+	d.OrderNonce = make([]byte, 32)
+	rng.Read(d.OrderNonce)
+	switch rng.Intn(12) {
+	case 0:
+		d.OrderNonce = nil
+	case 1:
+		d.OrderNonce = d.OrderNonce[:1+rng.Intn(31)]
+	case 2:
+		d.OrderNonce = append(d.OrderNonce, 1, 2, 3)
+	}
+	units := uint64(1 + rng.Intn(300))
+	d.Amt = units*100000 + uint64(rng.Intn(2))*uint64(rng.Intn(100000))
+	switch rng.Intn(10) {
+	case 0:
+		d.Amt = rng.Uint64()
+	case 1:
+		d.Amt = uint64(rng.Intn(100000))
+	}
+	d.MaxBatchFeeRateSatPerKw = uint64(253 + rng.Intn(100000))
+	if rng.Intn(8) == 0 {
+		d.MaxBatchFeeRateSatPerKw = rng.Uint64()
+	}
+	switch rng.Intn(6) {
+	case 0:
+		d.MinUnitsMatch = 0
+	case 1:
+		d.MinUnitsMatch = uint32(units) + 1 + uint32(rng.Intn(5))
+	case 2:
+		d.MinUnitsMatch = rng.Uint32()
+	default:
+		d.MinUnitsMatch = 1 + uint32(rng.Int63n(int64(units)))
+	}
+	d.ChannelType = auctioneerrpc.OrderChannelType(rng.Intn(5))
+	if rng.Intn(10) == 0 {
+		d.ChannelType = auctioneerrpc.OrderChannelType(4 + rng.Intn(100))
+	}
+	d.AuctionType = auctioneerrpc.AuctionType(rng.Intn(2))
+	if rng.Intn(10) == 0 {
+		d.AuctionType = auctioneerrpc.AuctionType(2 + rng.Intn(3))
+	}
+	ids := func() ([][]byte, string) {
+		n := 0
+		if rng.Intn(3) == 0 {
+			n = 1 + rng.Intn(3)
+		}
+		var res [][]byte
+		var toks []string
+		for i := 0; i < n; i++ {
+			id := e.keys.pub[1+rng.Intn(c14NKeys)].SerializeCompressed()
+			switch rng.Intn(8) {
+			case 0:
+				id = id[:rng.Intn(33)]
+			case 1:
+				id = append([]byte{5}, id[1:]...) // 33 bytes, not a key encoding
+			}
+			_, perr := btcec.ParsePubKey(id)
+			res = append(res, id)
+			toks = append(toks, fmt.Sprintf("%d:%s", len(id), c14B(perr == nil)))
+		}
+		if n == 0 {
+			return nil, "-"
+		}
+		return res, strings.Join(toks, "/")
+	}
+	var alTok, nalTok string
+	d.AllowedNodeIds, alTok = ids()
+	d.NotAllowedNodeIds, nalTok = ids()
+	version, lease := uint32(rng.Intn(7)), []uint32{2016, 4032, 144, rng.Uint32()}[rng.Intn(4)]
+	var opts []order.ParseOption
+	sel := "-"
+	if rng.Intn(3) == 0 {
+		ct := order.ChannelType(rng.Intn(3))
+		opts = append(opts, order.WithDefaultChannelType(func() order.ChannelType { return ct }))
+		sel = fmt.Sprint(uint8(ct))
+	}
+	var kit *order.Kit
+	var res string
+	func() {
+		defer func() {
+			if x := recover(); x != nil {
+				res = "err:panic"
+			}
+		}()
+		var err error
+		kit, err = order.ParseRPCOrder(version, lease, d, opts...)
+		switch {
+		case err == nil:
+			res = "ok"
+		case strings.Contains(err.Error(), "must be greater than 0"):
+			res = "err:min-units-zero"
+		case strings.Contains(err.Error(), "must not exceed total order units"):
+			res = "err:min-units-exceed"
+		case strings.Contains(err.Error(), "unhandled channel type"):
+			res = "err:channel-type"
+		case strings.Contains(err.Error(), "allowed and not allowed node ids set"):
+			res = "err:both-lists"
+		case strings.Contains(err.Error(), "invalid allowed_node_ids"):
+			res = "err:allowed-id"
+		case strings.Contains(err.Error(), "invalid not_allowed_node_ids"):
+			res = "err:not-allowed-id"
+		default:
+			res = "err:other:" + strings.ReplaceAll(err.Error(), " ", "_")
+		}
+	}()
+	out := res
+	if res == "ok" {
+		if kit.Preimage != [32]byte{} {
+			out = "err:random-nonce"
+		} else {
+			out = "ok " + c12FromKit(kit).tok()
+		}
+	}
+	tok := strings.Join([]string{c14Hex(d.TraderKey), fmt.Sprint(d.RateFixed), fmt.Sprint(d.Amt),
+		fmt.Sprint(d.MaxBatchFeeRateSatPerKw), c14Hex(d.OrderNonce), fmt.Sprint(d.MinUnitsMatch),
+		fmt.Sprint(int32(d.ChannelType)), fmt.Sprint(int32(d.AuctionType)), c14B(d.IsPublic), alTok, nalTok}, ",")
+	r.Emit(fmt.Sprintf("C12 parse %d %d %s %s", version, lease, tok, sel), out)
+	r.Evaluations++
+	r.Count("parse/" + strings.SplitN(out, " ", 2)[0])
+	// oracle: an order the RPC layer builds lies in the domain in which the
+	// digest is injective and the wire mapping loss-free
+	if res == "ok" && kit.Preimage == [32]byte{} {
+		mu := uint64(kit.MinUnitsMatch)
+		if mu == 0 || mu >= 1<<32 || uint8(kit.ChannelType) > 2 ||
+			(kit.AuctionType != order.BTCOutboundLiquidity && uint64(kit.Units) < 1<<32 && mu > uint64(kit.Units)) {
+
+			r.Count("oracle/violation")
+			r.Violate("ParseRPCOrder built an order outside the signed-terms domain (min units match 0, >= 2^32 "+
+				"or above the order's units; undefined channel type): "+out, "C12/parse-domain",
+				map[string]interface{}{"op": "parse", "request": tok, "version": version})
+		}
+	}
 }
 
 func runC12(r *Run) {
@@ -660,6 +846,8 @@ func runC12(r *Run) {
 		switch f.Op {
 		case "term":
 			e.termCase(r, f.Order, rng)
+		case "submitraw":
+			e.submitRaw(r, f.Order, rng)
 		case "submit":
 			// keys of a replayed submit case come from the recorded seed
 			e2 := newC12Env(f.Seed)
@@ -674,12 +862,13 @@ func runC12(r *Run) {
 		e.termCase(r, c12RandOrder(r.Rng, e.keys, r.Rng.Intn(3) == 0), r.Rng)
 		for j := 0; j < 2; j++ {
 			c := c12RandOrder(r.Rng, e.keys, true)
-			if c.Bid && c.Version >= 4 && c.SelfChanBal == 0 && r.Rng.Intn(2) == 0 {
+			if c.Bid && c.Version >= 4 && c.SelfChanBal == 0 && c.AuctionType == 0 && r.Rng.Intn(2) == 0 {
 				c.Sidecar = true
 				c.MinUnits = c.Units
 			}
 			e.submitCase(r, c, r.Rng, map[string]interface{}{"op": "submit", "order": c, "seed": r.Seed})
 		}
 		e.submitRaw(r, c12RandOrder(r.Rng, e.keys, false), r.Rng)
+		e.parseCase(r, r.Rng)
 	}
 }
